@@ -11,7 +11,13 @@ From AC Require Import Base.Sexp Base.Json Base.Strs Model.Names Model.Settings.
 Import ListNotations.
 Local Open Scope string_scope.
 
+(* which schema object a phase looks at: as loaded, with @mixin added, after the plugins' process_schema *)
+Inductive sstage := SLoaded | SMixin | SProcessed.
+Definition is_processed (s : sstage) : bool := match s with SProcessed => true | _ => false end.
+
 Inductive effect :=
+| EValidateOps (s : sstage)      (* graphql.validate(schema at stage s, operations) *)
+| EGenerate (s : sstage)         (* get_package_generator(schema at stage s, ...) *)
 | EReadConfig (p : string)
 | ERead (p : string)
 | EHttp (url : string)
@@ -49,7 +55,9 @@ Record world := {
   w_schema_errors : list string;       (* reference verdict: validate_sdl + validate_schema messages *)
   w_plugin_err : option string;        (* get_plugins_types raises PluginImportError(msg) *)
   w_query_files : list gfile;
-  w_op_errors : list (string * string);(* (rule class, message) under ALL specified_rules *)
+  w_op_errors : list (string * string);(* (rule class, message) under ALL specified_rules, against the schema
+                                          AFTER add_mixin_directive_to_schema + plugins' process_schema *)
+  w_op_errors_raw : list (string * string);   (* the same against the schema before process_schema *)
   w_ops : list opinfo;                 (* operation definitions of the queries document, in order *)
   w_fragments : bool;                  (* some fragment definition ends up in the fragments module *)
   w_query_type : bool;                 (* schema.query_type is set (custom_queries.py exists) *)
@@ -118,22 +126,31 @@ Definition load_plugins (w : world) : option err :=
 (* assert_valid_schema(schema) with schema._validation_errors == [] : never raises *)
 Definition assert_valid_schema (w : world) : option err := None.
 
-Definition relevant_op_errors (w : world) : list string :=
-  map snd (filter (fun p => negb (String.eqb (fst p) "NoUnusedFragmentsRule")) (w_op_errors w)).
+Definition op_errors_at (w : world) (s : sstage) : list (string * string) :=
+  match s with SProcessed => w_op_errors w | _ => w_op_errors_raw w end.
+Definition relevant_op_errors_at (w : world) (s : sstage) : list string :=
+  map snd (filter (fun p => negb (String.eqb (fst p) "NoUnusedFragmentsRule")) (op_errors_at w s)).
+Definition relevant_op_errors (w : world) : list string := relevant_op_errors_at w SProcessed.
 
 Fixpoint join (sep : string) (l : list string) : string :=
   match l with [] => "" | [x] => x | x :: r => x ++ sep ++ join sep r end.
 Definition nl2 : string := String (ascii_of_nat 10) (String (ascii_of_nat 10) EmptyString).
 
-Definition load_queries (w : world) (log : list effect) : list effect * option err :=
+Definition load_queries (w : world) (st : sstage) (log : list effect) : list effect * option err :=
   match load_and_parse (w_query_files w) log with
   | (log', Some x) => (log', Some x)
   | (log', None) =>
-      match relevant_op_errors w with
-      | [] => (log', None)
-      | msgs => (log', Some (mkerr InvalidOperationForSchema (join nl2 msgs)))
+      let log'' := (log' ++ [EValidateOps st])%list in
+      match relevant_op_errors_at w st with
+      | [] => (log'', None)
+      | msgs => (log'', Some (mkerr InvalidOperationForSchema (join nl2 msgs)))
       end
   end.
+
+(* main.client: schema = add_mixin_directive_to_schema(schema); schema = plugin_manager.process_schema(schema)
+   — both BEFORE get_graphql_queries; the same variable is then handed to get_package_generator *)
+Definition stage_for_validation : sstage := SProcessed.
+Definition stage_for_generation : sstage := SProcessed.
 
 (* PackageGenerator.add_operation, per operation in order *)
 Definition snake_flags : pflags := {| f_snake := true; f_trim := false; f_reserved := false |}.
@@ -228,11 +245,12 @@ Definition run_client (e : env) (cfg : json) (w : world) : list effect * outcome
               | Some x => (log, Failed PhValidity x)
               | None =>
                   let '(log2, qerr) :=
-                    if String.eqb (c_queries_path c) "" then (log, None) else load_queries w log in
+                    if String.eqb (c_queries_path c) "" then (log, None)
+                    else load_queries w stage_for_validation log in
                   match qerr with
                   | Some x => (log2, Failed PhQueries x)
                   | None =>
-                      let log3 := (log2 ++ [EStdout])%list in
+                      let log3 := (log2 ++ [EStdout; EGenerate stage_for_generation])%list in
                       let ops := if String.eqb (c_queries_path c) "" then [] else w_ops w in
                       match add_operations ops [] with
                       | Err x => (log3, Failed PhOperations x)
@@ -341,16 +359,16 @@ Definition dRemote (e : sexp) : option (Introspect.urlclass * Introspect.respons
 
 Definition dWorld (e : sexp) : option world :=
   match e with
-  | L [sf; sb; rem; se; pe; qf; oe; ops; L [fr; qt; mt]] =>
+  | L [sf; sb; rem; se; pe; qf; L [oe; oeraw]; ops; L [fr; qt; mt]] =>
       match dList dGfile sf, dBuild sb, dRemote rem, dList dStr se, dOpt dStr pe, dList dGfile qf,
-            dList dRule oe, dList dOp ops, dAll dB [fr; qt; mt] with
+            dList dRule oe, dList dOp ops, dAll dB [fr; qt; mt], dList dRule oeraw with
       | Some sf', Some sb', Some rem', Some se', Some pe', Some qf', Some oe', Some ops',
-        Some [fr'; qt'; mt'] =>
+        Some [fr'; qt'; mt'], Some oeraw' =>
           Some {| w_schema_files := sf'; w_schema_build := sb'; w_url := fst (fst rem'); w_resp := snd (fst rem');
                   w_deep := snd rem'; w_schema_errors := se';
-                  w_plugin_err := pe'; w_query_files := qf'; w_op_errors := oe'; w_ops := ops';
+                  w_plugin_err := pe'; w_query_files := qf'; w_op_errors := oe'; w_op_errors_raw := oeraw'; w_ops := ops';
                   w_fragments := fr'; w_query_type := qt'; w_mutation_type := mt' |}
-      | _, _, _, _, _, _, _, _, _ => None
+      | _, _, _, _, _, _, _, _, _, _ => None
       end
   | _ => None
   end.
@@ -359,6 +377,8 @@ Definition sEffect (f : effect) : sexp :=
   match f with
   | EReadConfig p => L [A "readconfig"; A p] | ERead p => L [A "read"; A p]
   | EHttp u => L [A "http"; A u] | EStdout => L [A "stdout"]
+  | EValidateOps s => L [A "validate-ops"; A (if is_processed s then "processed" else "raw")]
+  | EGenerate s => L [A "generate-with"; A (if is_processed s then "processed" else "raw")]
   | EMkdir p => L [A "mkdir"; A p] | EWrite p => L [A "write"; A p]
   end.
 Definition sOutcome (o : outcome) : sexp :=
